@@ -115,6 +115,9 @@ def run(ctx, only_cases=None):
         cases += [{"mode": "nodeseq", "n": 3, "sched": [ctx.rng.randrange(9) for _ in range(ctx.rng.choice([4, 6, 9]))]} for _ in range(400 if thorough else 60)]
         cases += [{"mode": "nodefault", "n": k} for k in (1, 2, 3, 4)]
         cases += [{"mode": "wrap", "n": 40 if thorough else 12}]
+        cases += [{"mode": "stress", "n": 2500 if thorough else 600}]
+        cases += [{"mode": "hybrid2", "n": 2, "kind": k} for k in (0, 1)]
+        cases += [{"mode": "uniqwrap", "n": k} for k in (0, 1, 3)]
         # the boundary "no free id": the range is full (or has 1-2 free slots); allocate / real Release() sequences on 1-3 allocators
         for free in ([], [1000], [1], [500, 1000], [ctx.rng.randrange(1, 1001)]):
             cases += [{"mode": "nodefull", "n": 2, "pre": free, "sched": list(s)} for s in itertools.product(range(4), repeat=4)][:: (1 if thorough else 9)]
@@ -134,7 +137,7 @@ def run(ctx, only_cases=None):
         if not o["prop_ok"]:
             nfail += 1
             if nfail <= 3:
-                kind = {"node": "node-id-duplicate", "nodeseq": "node-id-duplicate-after-lease-lapse", "nodefault": "node-id-duplicate-on-shared-cache-fault", "nodefull": "node-range-full-not-clean", "wrap": "handed-out-id-not-the-marked-id", "birthday": "duplicate-live-id-real-collision",
+                kind = {"node": "node-id-duplicate", "nodeseq": "node-id-duplicate-after-lease-lapse", "nodefault": "node-id-duplicate-on-shared-cache-fault", "nodefull": "node-range-full-not-clean", "wrap": "handed-out-id-not-the-marked-id", "stress": "concurrent-callers-one-generator", "hybrid2": "two-nodes-shared-cache-duplicate", "uniqwrap": "taken-candidate-handed-out", "birthday": "duplicate-live-id-real-collision",
                         "fallback": "fallback-duplicate", "hybridnx": "hybrid-setnx-fallback-duplicate", "nodehb": "node-lease-not-renewed", "uuid": "uuid-duplicate-under-entropy-fault", "ttl": "marker-lifetime"}.get(
                     c["mode"], "leak" if "marker" in o["prop_msg"] else "duplicate-live-id")
                 ctx.violation(kind, "real idgen/node allocator: " + o["prop_msg"], {"case": c, "observed": o})
